@@ -1,7 +1,9 @@
 package main
 
 import (
+	"bytes"
 	"fmt"
+	"sync"
 
 	fr "github.com/consensys/gnark-crypto/field/koalabear"
 	ext "github.com/consensys/gnark-crypto/field/koalabear/extensions"
@@ -109,6 +111,54 @@ func kernelsKoalabear(c *mon.Ctx) {
 			}
 		}
 		c.Class(fmt.Sprintf("%s/Poseidon2/t%d-rf%d-rp%d", N, ps[0], ps[1], ps[2]))
+	}
+	// one permutation object used by several goroutines at once (how the Vortex package uses its package-level
+	// permutations): a kernel that keeps scratch state in the object instead of in registers or on the stack only
+	// differs from the other builds here. Every goroutine works on its own inputs; outputs are recorded per goroutine.
+	for _, ps := range [][3]int{{16, 6, 21}, {24, 6, 21}, {16, 8, 13}, {24, 8, 21}, {16, 6, 12}} {
+		h := poseidon2.NewPermutation(ps[0], ps[1], ps[2])
+		const G, K = 8, 40
+		ins := make([][][]fr.Element, G)
+		outs := make([][][]byte, G)
+		for g := range ins {
+			ins[g] = make([][]fr.Element, K)
+			outs[g] = make([][]byte, K)
+			for k := range ins[g] {
+				ins[g][k] = rnd(ps[0])
+			}
+		}
+		var wg sync.WaitGroup
+		for g := 0; g < G; g++ {
+			wg.Add(1)
+			go func(g int) {
+				defer wg.Done()
+				for k := 0; k < K; k++ {
+					v := append([]fr.Element(nil), ins[g][k]...)
+					if err := h.Permutation(v); err != nil {
+						outs[g][k] = []byte("error:" + err.Error())
+						continue
+					}
+					outs[g][k] = rawBytes(v)
+				}
+			}(g)
+		}
+		wg.Wait()
+		for g := 0; g < G; g++ {
+			for k := 0; k < K; k++ {
+				o := outs[g][k]
+				rec(c, fmt.Sprintf("%s/Poseidon2.Permutation/shared-object/t%d-rf%d-rp%d/g%d/%d", N, ps[0], ps[1], ps[2], g, k), func() []byte { return o })
+			}
+		}
+		// the same inputs once more, sequentially: a build whose concurrent results differ from its own sequential ones
+		for g := 0; g < G; g += 3 {
+			for k := 0; k < K; k += 7 {
+				v := append([]fr.Element(nil), ins[g][k]...)
+				h.Permutation(v)
+				c.Check("Poseidon2", fmt.Sprintf("%s/Poseidon2.Permutation/shared-object/concurrent-differs-from-sequential/t%d-rf%d-rp%d", N, ps[0], ps[1], ps[2]), bytes.Equal(rawBytes(v), outs[g][k]), func() string {
+					return fmt.Sprintf("goroutine %d input %d", g, k)
+				})
+			}
+		}
 	}
 	// parameter grid through both constructors: the vectorised kernels are specialised for a few (width, rounds)
 	// triples and selected by flags computed in the constructors; every other triple must take the portable rounds
